@@ -12,14 +12,21 @@
 -/
 import DDProofs.DddmpProofs
 import DDProofs.DddmpHeader
+import DDProofs.DddmpFormat
 import DDProofs.FindOrAdd
+import DDProofs.Reach
+import DDProofs.SwapDrivers
 namespace DD
 
 /-- the specification of `find_or_add` assumed by `DDProofs/DddmpProofs.lean` holds -/
 theorem foaSpec : FoaSpec :=
   ⟨fun m i v w hI hi hv hw hlv hlw => by
     obtain ⟨r, m', he, hp⟩ := findOrAddCore_spec m hI i v w hi hv hw hlv hlw
-    exact ⟨r, m', he, hp.inv, hp.ext, hp.mem, hp.lvl, hp.den⟩⟩
+    exact ⟨r, m', he, hp.inv, hp.ext, hp.mem, hp.lvl, hp.den⟩,
+   fun m i v w hI hi hv hw hlv hlw => by
+    obtain ⟨r, m', he, hp⟩ := findOrAddCore_spec m hI i v w hi hv hw hlv hlw
+    rw [he]
+    exact ⟨hp.frame, hp.fire, hp.cacheSame⟩⟩
 
 /-- a small file whose numbering differs from the order in which the loader recreates the
 nodes (the minimal reproduction of finding F1, since repaired): two roots `a` and `¬ b`,
@@ -60,18 +67,30 @@ gaps in the levels, for each of the variable-identification modes 0, 1, 3 —
 `dd.dddmp.load` succeeds, the manager satisfies the invariant (hence is canonical, C02),
 the loader's map sends every node number of the file to a reference that denotes, by
 variable name, what the node list says, and the returned `roots` denote (as a set of
-functions — `bdd.roots` is a `set`) exactly the root entries of the file -/
+functions — `bdd.roots` is a `set`) exactly the root entries of the file.
+
+The returned manager is a state every other property theorem starts from:
+`GoodState m (fun _ => 0)` = `Inv` + `OrderOK` (name maps inverse bijections onto `0..n-1`) +
+`RefExact` for the EMPTY ledger (the loader takes no reference, not even on the roots:
+`find_or_add` counts stored edges only, and `bdd.roots` is a plain set) + dynamic
+reordering not enabled + outside a reordering context; no recorded schedule; every root is a
+node.  `dd.dddmp.load(fname)` always builds a NEW manager (`_bdd.BDD(new_levels)`): there is
+no receiving manager, and a refused file (exception) returns nothing. -/
 theorem C16_load_spec (f : DddmpFile) (hf : f.WF) :
     ∃ m umap, loadDddmpU f = .ok (m, umap) ∧ loadDddmp f = .ok m ∧ Inv m ∧
       (∀ x ∈ f.nodes, ∃ r, dictGet umap x.u = some r ∧ m.tbl.Mem r ∧
         ∀ α, den m.tbl r (asgOf m.tbl α) = evalFile f α x.u) ∧
-      DddmpRootsDenote f m :=
-  dddmpLoad_spec_of_foaSpec foaSpec f hf
+      DddmpRootsDenote f m ∧
+      GoodState m (fun _ => 0) ∧ m.sched = [] ∧ (∀ r ∈ m.roots, m.tbl.Mem r) := by
+  obtain ⟨m, umap, h1, h2, h3, h4, h5, h6, h7⟩ := dddmpLoad_good_of_foaSpec foaSpec f hf
+  obtain ⟨i2p, levels, roots, _, hh, _⟩ := id hf
+  have hL := h6 i2p levels roots hh
+  exact ⟨m, umap, h1, h2, h3, h4, h5, ⟨h3, hL.order, hL.exact, hL.off, hL.ctx⟩, hL.sched, h7⟩
 
 /-- C16, the roots clause alone -/
 theorem C16_roots (f : DddmpFile) (hf : f.WF) :
     ∃ m, loadDddmp f = .ok m ∧ Inv m ∧ DddmpRootsDenote f m := by
-  obtain ⟨m, _, _, h, hi, _, hr⟩ := C16_load_spec f hf
+  obtain ⟨m, _, _, h, hi, _, hr, _⟩ := C16_load_spec f hf
   exact ⟨m, h, hi, hr⟩
 
 /-- C16, canonicity of the loaded manager spelled out: two references of the returned
@@ -81,6 +100,135 @@ theorem C16_canonical (f : DddmpFile) (hf : f.WF) :
       ((∀ a, den m.tbl u a = den m.tbl v a) ↔ u = v) := by
   obtain ⟨m, h, hi, _⟩ := C16_roots f hf
   exact ⟨m, h, fun u v hu hv => canonical m.tbl hi.wf u v hu hv⟩
+
+/-! ### the loaded manager is a reachable state (chaining) -/
+
+/-- C16 (chaining): the manager returned for a well-formed file satisfies the full
+reachable-state invariant `GoodState` with the empty ledger, nothing else is set (no schedule,
+trigger counter, computed table), every root is a node, the roots denote the file's root
+entries, and the ORDER is the file's: one variable per entry of the header's `levels`
+table, the variable of file level `k` at the rank of `k` (`DddmpLoaded.rank`; by mode:
+`C16_order_ordered`, `C16_order_supp`) -/
+theorem C16_load_good (f : DddmpFile) (hf : f.WF) :
+    ∃ m, loadDddmp f = .ok m ∧ GoodState m (fun _ => 0) ∧ m.sched = [] ∧ m.fireIn = none ∧
+      m.cache = {} ∧ (∀ r ∈ m.roots, m.tbl.Mem r) ∧ DddmpRootsDenote f m ∧
+      ∀ i2p levels roots, dddmpHeader f = .ok (i2p, levels, roots) → DddmpLoaded levels m := by
+  obtain ⟨m, umap, _, h2, h3, _, h5, h6, h7⟩ := dddmpLoad_good_of_foaSpec foaSpec f hf
+  obtain ⟨i2p, levels, roots, _, hh, _⟩ := id hf
+  have hL := h6 i2p levels roots hh
+  exact ⟨m, h2, ⟨h3, hL.order, hL.exact, hL.off, hL.ctx⟩, hL.sched, hL.fire, hL.cache, h7, h5, h6⟩
+
+/-- the file's variables keep the relative order of their levels in the file (with
+`OrderOK` and `nvars = levels.length` this determines the order of the loaded manager) -/
+theorem C16_order_kept (f : DddmpFile) (hf : f.WF) :
+    ∃ m, loadDddmp f = .ok m ∧ ∀ i2p levels roots, dddmpHeader f = .ok (i2p, levels, roots) →
+      m.nvars = levels.length ∧
+      (∀ var k, (var, k) ∈ levels → m.tbl.vars.contains var.show = true) ∧
+      ∀ var k var' k' (i i' : Nat), (var, k) ∈ levels → (var', k') ∈ levels →
+        m.tbl.vars[var.show]? = some i → m.tbl.vars[var'.show]? = some i' → k < k' → i < i' := by
+  obtain ⟨m, h, -, -, -, -, -, -, hL⟩ := C16_load_good f hf
+  refine ⟨m, h, fun i2p levels roots hh => ⟨(hL _ _ _ hh).nvars, ?_, ?_⟩⟩
+  · intro var k hm
+    obtain ⟨i, -, -, hv⟩ := (hL _ _ _ hh).rank var k hm
+    rw [Std.TreeMap.contains_eq_isSome_getElem?, hv]; rfl
+  · intro var k var' k' i i' hm hm' hi hi' hlt
+    exact (hL _ _ _ hh).mono hm hm' hi hi' hlt
+
+/-- with `.orderedvarnames` (distinct names): the order of the loaded manager IS that list -/
+theorem C16_order_ordered (f : DddmpFile) (hf : f.WF) (hH : DddmpHeaderOK f) {ov : List Tok}
+    (ho : f.orderedvarnames = some ov) :
+    ∃ m, loadDddmp f = .ok m ∧ m.nvars = ov.length ∧ ∀ (k : Nat) (var : Tok), ov[k]? = some var →
+      m.tbl.vars[var.show]? = some k ∧ m.tbl.l2v[k]? = some var.show := by
+  obtain ⟨m, h, -, -, -, -, -, -, hL⟩ := C16_load_good f hf
+  obtain ⟨i2p, levels, roots, _, hh, _⟩ := id hf
+  exact ⟨m, h, (hL _ _ _ hh).of_ordered hh hH ho⟩
+
+/-- without `.orderedvarnames`: `suppvarnames[j]` sits at the rank of `permids[j]` among the
+`.permids` — gaps closed, relative order kept -/
+theorem C16_order_supp (f : DddmpFile) (hf : f.WF) (hH : DddmpHeaderOK f)
+    (hv3 : f.varinfo ≠ some 3) (ho : f.orderedvarnames = none) {sv : List Tok}
+    (hs : f.suppvarnames = some sv) {permids : List Int} (hp : f.permids = some permids) :
+    ∃ m, loadDddmp f = .ok m ∧ m.nvars = permids.length ∧
+      ∀ (j : Nat) (var : Tok) (k : Int), sv[j]? = some var → permids[j]? = some k →
+        ∃ i : Nat, (sortInts permids)[i]? = some k ∧ m.tbl.vars[var.show]? = some i ∧
+          m.tbl.l2v[i]? = some var.show := by
+  obtain ⟨m, h, -, -, -, -, -, -, hL⟩ := C16_load_good f hf
+  obtain ⟨i2p, levels, roots, _, hh, _⟩ := id hf
+  exact ⟨m, h, (hL _ _ _ hh).of_supp hh hH hv3 ho hs hp⟩
+
+/-- C16 (chaining, every history): after a successful load EVERY guarded history of user
+operations (`UOp`: declarations, connectives, substitutions, quantification, `incref` /
+`decref`, collections — any arguments, accepted or rejected) leads to a good state again:
+the every-history theorems (`run_inv`, `run_held`, …) restart from the loaded manager -/
+theorem C16_then_every_history (f : DddmpFile) (hf : f.WF) :
+    ∃ m, loadDddmp f = .ok m ∧ ∀ ops : List UOp, OpsGuarded ops ⟨m, fun _ => 0⟩ →
+      GoodState (run ops ⟨m, fun _ => 0⟩).m (run ops ⟨m, fun _ => 0⟩).ext := by
+  obtain ⟨m, h, hg, -⟩ := C16_load_good f hf
+  exact ⟨m, h, fun ops hops => run_inv ops ⟨m, fun _ => 0⟩ hg hops⟩
+
+/-- the user's `incref` of every element of a list -/
+def holdOps (rs : List Int) : List UOp := rs.map .incref
+
+theorem holdOps_guarded : ∀ (rs : List Int) (s : St), OpsGuarded (holdOps rs) s
+  | [], _ => trivial
+  | _ :: rs, s => ⟨trivial, holdOps_guarded rs _⟩
+
+theorem run_holdOps : ∀ (rs : List Int) (s : St), GoodState s.m s.ext →
+    (∀ r ∈ rs, s.m.tbl.Mem r) →
+    GoodState (run (holdOps rs) s).m (run (holdOps rs) s).ext ∧
+      (run (holdOps rs) s).m.tbl = s.m.tbl ∧ (run (holdOps rs) s).m.roots = s.m.roots ∧
+      (run (holdOps rs) s).m.sched = s.m.sched ∧
+      (∀ u, s.ext u ≤ (run (holdOps rs) s).ext u) ∧
+      (∀ r ∈ rs, 0 < (run (holdOps rs) s).ext r.natAbs) := by
+  intro rs
+  induction rs with
+  | nil => intro s h _; exact ⟨h, rfl, rfl, rfl, fun _ => Nat.le_refl _, fun _ hr => by cases hr⟩
+  | cons r rs ih =>
+    intro s h hm
+    have hr : s.m.tbl.Mem r := hm r List.mem_cons_self
+    obtain ⟨c, -, he, -⟩ := incref_spec s.m s.ext r h.exact hr
+    have hmem : s.m.mem r = true := (Mgr.mem_iff s.m r).mpr hr
+    have hs1 : step (.incref r) s =
+        ⟨{ s.m with ref := s.m.ref.insert r.natAbs (c + 1) }, extInc s.ext r.natAbs⟩ := by
+      simp only [step, runOp, mapRes, he, ledger, hmem, if_true]
+    have hg1 : GoodState (step (.incref r) s).m (step (.incref r) s).ext :=
+      step_inv s.m s.ext (.incref r) h trivial
+    obtain ⟨g, ht, hro, hsc, hle, hpos⟩ := ih (step (.incref r) s) hg1 (by
+      intro r' hr'
+      rw [hs1]
+      exact hm r' (List.mem_cons_of_mem _ hr'))
+    have hle1 : ∀ u, s.ext u ≤ (step (.incref r) s).ext u := by
+      intro u; rw [hs1]; simp only [extInc]; split <;> omega
+    refine ⟨g, ?_, ?_, ?_, fun u => Nat.le_trans (hle1 u) (hle u), ?_⟩
+    · show (run (holdOps rs) (step (.incref r) s)).m.tbl = _
+      rw [ht, hs1]
+    · show (run (holdOps rs) (step (.incref r) s)).m.roots = _
+      rw [hro, hs1]
+    · show (run (holdOps rs) (step (.incref r) s)).m.sched = _
+      rw [hsc, hs1]
+    · intro r' hr'
+      rcases List.mem_cons.mp hr' with rfl | hr'
+      · have : 0 < (step (.incref r') s).ext r'.natAbs := by
+          rw [hs1]; simp [extInc]
+        exact Nat.lt_of_lt_of_le this (hle _)
+      · exact hpos r' hr'
+
+/-- C16 (chaining with the reordering theorems): the loader takes no reference on the roots;
+once the user has taken one on each (`incref`, as the class documentation asks), the state
+satisfies `ReorderInv` — the hypothesis of the C07 theorems on `swap` / sifting /
+`reorder` and of `bdd_to_mdd` (C15) — for the ledger that counts these references, and the
+node table, hence every denotation, is the loaded one -/
+theorem C16_hold_roots (f : DddmpFile) (hf : f.WF) :
+    ∃ m, loadDddmp f = .ok m ∧
+      let s := run (holdOps m.roots) ⟨m, fun _ => 0⟩
+      GoodState s.m s.ext ∧ ReorderInv s.ext s.m ∧ s.m.tbl = m.tbl ∧ s.m.roots = m.roots ∧
+        s.m.sched = [] ∧ ∀ r ∈ m.roots, 0 < s.ext r.natAbs := by
+  obtain ⟨m, h, hg, hsch, -, -, hmem, -⟩ := C16_load_good f hf
+  obtain ⟨g, ht, hro, hsc, -, hpos⟩ := run_holdOps m.roots ⟨m, fun _ => 0⟩ hg hmem
+  refine ⟨m, h, g, ⟨g.inv, g.order, g.exact, Or.inl g.ctx, ?_⟩, ht, hro, hsc.trans hsch, hpos⟩
+  intro r hr
+  rw [hro] at hr
+  exact hpos r hr
 
 /-- the assignment `a = true, b = false` -/
 def dddmpWitnessAsg : String → Bool := fun s => s == "a"
